@@ -61,3 +61,46 @@ def match_clamp(v: Term) -> List[Tuple[Term, Term, Term, str]]:
             for e, lo in permutations(iargs):
                 out.append((e, lo, outer_other, 'min(max(e,lo),hi)'))
     return out
+
+
+# ---------------------------------------------------------------------------------------------- grid shape (C09/C10)
+from itertools import product as _product
+from sa.terms import subst_term, subst_formula, mk_minmax, mul
+
+
+def layers(E: Term) -> Term:
+    """Number of cell layers along an axis of extent E: max(E, 1)."""
+    return mk_minmax('max', [E, ONE])
+
+
+def extent_cases(self_s: Term):
+    """The 2^3 cases of the extent domain: per axis either E == 0 or E >= 1.  Yields (label, term mapping, assumption)."""
+    exts = [Attr(self_s, ext) for _, ext, _ in AXES]
+    for bits in _product((0, 1), repeat=3):
+        mapping = {}
+        assume = []
+        label = []
+        for (ax, ext, _), E, b in zip(AXES, exts, bits):
+            if b == 0:
+                mapping[E] = ZERO
+                label.append(f"{ext}=0")
+            else:
+                mapping[layers(E)] = E
+                assume.append(positive(E))
+                label.append(f"{ext}>=1")
+        yield ', '.join(label), mapping, f_and(*assume)
+
+
+def subst_case(t, mapping):
+    """Apply an extent case to a term/formula: first max(E,1) -> E for positive axes, then E -> 0 for flat axes."""
+    first = {k: v for k, v in mapping.items() if not isinstance(k, Attr)}
+    second = {k: v for k, v in mapping.items() if isinstance(k, Attr)}
+    fn = subst_formula if isinstance(t, Formula) else subst_term
+    t = fn(t, first) if first else t
+    t = fn(t, second) if second else t
+    return t
+
+
+def expected_id(self_s: Term, x: Term, y: Term, z: Term) -> Term:
+    nx, ny = layers(Attr(self_s, 'width')), layers(Attr(self_s, 'height'))
+    return add(add(x, mul(y, nx)), mul(z, mul(nx, ny)))
